@@ -5,7 +5,7 @@ from sa.effects import Effects, all_events
 from sa.terms import C, CallT, P, SubC, access_path, is_call, is_const, is_lit, root_of, show
 from sa.walker import flatten_events
 
-from . import fn_site
+from . import fn_site, mentions
 from .signer import canon_bytes
 
 EXPLANATION = (
@@ -45,10 +45,18 @@ def writer_model(ctx, rule="R1"):
             ok_all, why = False, "the bytes written are %s, not canonserialize(metadata)" % show(w[3])[:120]
             break
         h = w[2]
+        staged = False
         if not (is_call(h, "builtin:open") and h[2] and _names_file(h[2][0], fname, writing=True)):
-            ok_all, why = False, "the write does not go to a handle opened on the filename parameter (%s)" % show(h)[:100]
-            break
+            bad = _staged_then_moved(evs, w, h, fname)
+            if bad is not None:
+                ok_all, why = False, "the write does not go to a handle opened on the filename parameter (%s)%s" % (show(h)[:100], bad)
+                break
+            staged = True
         mode = h[2][1] if len(h[2]) > 1 else dict(h[3]).get("mode")
+        if mode is None and is_call(h, "ext:tempfile.NamedTemporaryFile"):
+            mode = C("w+b")
+        if staged and mode is not None and is_const(mode) and isinstance(mode[2], str) and "a" not in mode[2] and "b" in mode[2] and ("w" in mode[2] or "x" in mode[2]):
+            continue  # (a staging file may be opened w+b; the order serializer/open does not matter: the target is replaced whole)
         if not (mode is not None and is_const(mode) and isinstance(mode[2], str) and "b" in mode[2] and ("w" in mode[2] or "x" in mode[2]) and "+" not in mode[2] and "a" not in mode[2]):
             ok_all, why = False, "the file is not opened in binary write mode (mode %s): newline translation / text encoding would alter the canonical bytes" % (show(mode) if mode else "default 'r'")
             break
@@ -71,6 +79,10 @@ def loader_model(ctx, rule="R2"):
         if not (is_call(v, ("ext:json.load", "ext:json.loads")) and v[2]):
             ok_all, why = False, "returns %s, not the result of json.load unmodified" % show(v)[:100]
             break
+        touched = [ev for ev in all_events(p.events) if ev[0] in ("store", "del", "mutcall") and isinstance(ev[2], tuple) and (ev[2] == v or mentions(ev[2], v))]
+        if touched:
+            ok_all, why = False, "the loaded value is changed before it is returned (%s %s at %s): what is returned is not the file's JSON value" % (touched[0][0], show(touched[0][2])[:60], touched[0][1].loc())
+            break
         hooks = [(n, val) for n, val in v[3] if not (is_const(val) and val[2] is None)]
         if hooks or len(v[2]) > 1:
             ok_all, why = False, "json.load is given non-default decoding hooks (%s): the loaded value would differ from the JSON value" % ", ".join(n for n, _v in hooks)
@@ -88,6 +100,48 @@ def loader_model(ctx, rule="R2"):
             break
     ctx.count(rule + ".loader_paths", len(rets))
     ctx.ob(rule, "loader", site.loc(), "load_metadata_from_file " + ("returns json.load(open(fname, 'rb')) with default hooks, unmodified" if ok_all else "deviates: " + why), ok_all)
+
+
+def _same_path(t, x):
+    return t == x or (is_call(t, ("ext:os.fspath", "builtin:str")) and t[2] == (x,))
+
+
+def _staged_then_moved(evs, w, h, fname):
+    """write-to-a-staging-file-then-rename: the bytes go to a handle on some other path T, and after
+    the write os.replace(T, filename) / os.rename(T, filename) puts the complete file under the
+    name (atomically; a failure before it leaves the named file untouched), and nothing else
+    writes the named file.  -> None when the path has this shape, else the reason it has not ('' = no staging file at all)"""
+    staging = None
+    if is_call(h, "builtin:open") and h[2]:
+        x = h[2][0]
+        staging = x
+        if is_call(x, "ext:os.open") and x[2]:
+            staging = x[2][0]
+        elif isinstance(x, tuple) and len(x) == 3 and x[0] == "sub" and is_call(x[1], "ext:tempfile.mkstemp") and x[2] == C(0):
+            staging = ("sub", x[1], C(1))
+    elif is_call(h, "ext:tempfile.NamedTemporaryFile"):
+        staging = ("attr", h, "name")
+    if staging is None or _same_path(staging, fname):
+        return ""  # not a handle of a staging file: the plain report stands
+    wi = next((i for i, ev in enumerate(evs) if ev is w), None)
+    moves = [i for i, ev in enumerate(evs) if ev[0] == "fs-mutation" and ev[2] in ("ext:os.replace", "ext:os.rename") and len(ev[3]) >= 2 and _same_path(ev[3][0], staging) and _same_path(ev[3][1], fname)]
+    if wi is None or not moves:
+        return " and the file written (%s) is never moved to the named file" % show(staging)[:60]
+    if len(moves) > 1 or moves[0] < wi:
+        return " and the staging file is moved into place before it is completely written"
+    closed = any(ev[0] == "with-exit" or (ev[0] == "call" and ev[2] == "method:close" and ev[3] and ev[3][0] == h) for ev in evs[wi + 1 : moves[0]])
+    if not closed:
+        return " and the staging file is moved into place before its handle is closed (buffered bytes may be missing)"
+    for i, ev in enumerate(evs):
+        if i == moves[0]:
+            continue
+        if ev[0] == "fs-mutation" and any(_same_path(a, fname) for a in ev[3]):
+            return " and the named file is also changed by %s" % ev[2]
+        if ev[0] == "call" and ev[2] == "builtin:open" and ev[3] and _names_file(ev[3][0], fname, writing=True):
+            m = ev[3][1] if len(ev[3]) > 1 else dict(ev[4]).get("mode")
+            if m is None or not is_const(m) or any(ch in str(m[2]) for ch in "wax+"):
+                return " and the named file is also opened for writing"
+    return None
 
 
 def _already_there(eng, p, fname, want):
